@@ -250,13 +250,25 @@ Record mia_case := {
   mc_obs_res : list (list fval)                        (* compute() [word][sample] *)
 }.
 
+(* A float sample that is not a finite number — the markers NaN, PInf, NInf of the export — is in no bin: NaN fails
+   both range tests of the kernel (x >= min, x == max), +inf and -inf are beyond the edges.  [bin_index_f] is the kernel on
+   exported samples; in the per-entry row lists such traces are dropped, which is the same thing (a skipped trace
+   contributes st_zero). *)
+Definition bin_index_f (edges : list Qc) (est : Qc -> nat) (v : fval) : option nat :=
+  match fval_qc v with Some x => bin_index edges est x | None => None end.
+
 Definition entry_batches (c : mia_case) (s w : nat) : option (list (list row)) :=
-  all_some (map (fun batch =>
-    all_some (map (fun r : list fval * list Z =>
+  Some (map (fun batch =>
+    flat_map (fun r : list fval * list Z =>
       match fval_qc (nth s (fst r) NaN) with
-      | Some x => Some (x, nth w (snd r) (-1)%Z)
-      | None => None
-      end) batch)) (mc_batches c)).
+      | Some x => [(x, nth w (snd r) (-1)%Z)]
+      | None => []
+      end) batch) (mc_batches c)).
+
+(* every trace row carries mc_ns samples and mc_nw data words (so that [nth]'s default is never what is read) *)
+Definition rows_well_formed (c : mia_case) : bool :=
+  forallb (forallb (fun r : list fval * list Z =>
+    Nat.eqb (length (fst r)) (mc_ns c) && Nat.eqb (length (snd r)) (mc_nw c))) (mc_batches c).
 
 Definition obs_acc_get (c : mia_case) (s b k w : nat) : Z :=
   nth w (nth k (nth b (nth s (mc_obs_acc c) []) []) []) (-1)%Z.
@@ -287,6 +299,7 @@ Definition mia_check (c : mia_case) : bool :=
   match all_some (map fval_qc (mc_edges c)), all_some (map fval_qc (mc_ln c)) with
   | Some edges, Some lntab =>
       edges_ok mia_tol edges
+      && rows_well_formed c
       && Nat.eqb (length (mc_obs_acc c)) (mc_ns c)
       && Nat.eqb (length (mc_obs_res c)) (mc_nw c)
       && forallb (fun s => forallb (fun w => entry_check c edges lntab s w) (seq 0 (mc_nw c))) (seq 0 (mc_ns c))
